@@ -144,7 +144,12 @@ def falsify_C04(ctx):
             else:
                 rels = [releases_for(c["arr"], horizon - 200, rng, sync=(rep % 2 == 0)) if c["arr"] is not None else [] for c in cbs]
             tr = [] if rep < 2 else None
-            done = ros_sim.simulate_executor(cbs, rels, sigma, chains, trace=tr)
+            # execution times: the WCET, or (every third scenario) anything between 1 and the WCET
+            exf = ros_sim.ex_formula(cbs, rng.randint(0, 9), rng.randint(0, 9), rng.randint(0, 9)) if rep % 3 == 1 else None
+            st = [] if tr is not None else None
+            done = ros_sim.simulate_executor(cbs, rels, sigma, chains, trace=tr, ex=exf, started=st)
+            if exf is not None:
+                dist["runs_with_shorter_execution_times"] = dist.get("runs_with_shorter_execution_times", 0) + 1
             if tr is not None:
                 # Spec validation: the executor model's runs satisfy the schedule-level Spec over
                 # which `timer_safe` / `polling_point_safe` / `chain_safe` are proved (for a chain:
@@ -152,9 +157,9 @@ def falsify_C04(ctx):
                 if kind == "ch":
                     first, last = target[1], target[2]
                     rels_src = [list(rels[first]) if first <= x <= last else rels[x] for x in range(len(cbs))]
-                    viol = ros_sim.check_timer_legal(cbs, rels_src, sigma, tr, last, all_others=True)
+                    viol = ros_sim.check_timer_legal(cbs, rels_src, sigma, tr, last, all_others=True, started=st)
                 else:
-                    viol = ros_sim.check_timer_legal(cbs, rels, sigma, tr, target[1], all_others=(kind == "pp"))
+                    viol = ros_sim.check_timer_legal(cbs, rels, sigma, tr, target[1], all_others=(kind == "pp"), started=st)
                 dist["timer_spec_checked_runs"] = dist.get("timer_spec_checked_runs", 0) + 1
                 if viol:
                     spec_viol.append({"op": op, "clauses": viol})
@@ -181,7 +186,7 @@ def falsify_C04(ctx):
     for v in spec_viol[:5]:
         cex.append({"kind": "executor_oracle_vs_schedule_spec", "op": v["op"], "violated_clauses": v["clauses"]})
     return {"cases": sum(dist[k] for k in ("es", "tm", "pp", "ch")), "nontrivial": len(nontrivial),
-            "rule": "random executor workloads (timers, polled callbacks, a chain of polled callbacks) and event-source job sets on random periodic / deadline-constrained reservations: dense admissible releases (synchronous and phased), budget placed at random / as late as possible / adversarially, executed by the executor model (timers first, ready set refreshed only when empty, one instance per callback per polling window, non-preemptive, service only in supplied slots) resp. FIFO; observed response times vs the real bound; blocking bound of a timer = longest other non-higher-priority callback - 1; a polled callback is analysed with ALL other callbacks as interference; non-trivial = distinct (analysis input, scenario)",
+            "rule": "random executor workloads (timers, polled callbacks, a chain of polled callbacks) and event-source job sets on random periodic / deadline-constrained reservations: dense admissible releases (synchronous and phased), budget placed at random / as late as possible / adversarially, executed by the executor model (timers first, ready set refreshed only when empty, one instance per callback per polling window, non-preemptive, service only in supplied slots; execution times at the WCET and, every third scenario, anywhere between 1 and the WCET) resp. FIFO; observed response times vs the real bound; blocking bound of a timer = longest other non-higher-priority callback - 1; a polled callback is analysed with ALL other callbacks as interference; non-trivial = distinct (analysis input, scenario)",
             "counterexamples": cex, "samples": samples, "distribution": dist}
 
 
@@ -277,11 +282,16 @@ def falsify_C05(ctx):
             else:
                 rels = [releases_for(c["arr"], horizon - 250, rng, sync=(rep % 2 == 0)) for c in cbs]
             tr, pl = ([], []) if rep < 2 else (None, None)
-            done = ros_sim.simulate_executor(cbs, rels, sigma, trace=tr, polls=pl)
+            # execution times: the WCET, or (every third scenario) anything between 1 and the WCET
+            exf = ros_sim.ex_formula(cbs, rng.randint(0, 9), rng.randint(0, 9), rng.randint(0, 9)) if rep % 3 == 1 else None
+            st = [] if tr is not None else None
+            done = ros_sim.simulate_executor(cbs, rels, sigma, trace=tr, polls=pl, ex=exf, started=st)
+            if exf is not None:
+                dist["runs_with_shorter_execution_times"] = dist.get("runs_with_shorter_execution_times", 0) + 1
             if tr is not None:
                 # Spec validation: runs of the executor model satisfy the schedule-level Spec over
                 # which `rr_singleton_sound` is stated
-                viol = ros_sim.check_polling_legal(cbs, rels, sigma, tr, pl)
+                viol = ros_sim.check_polling_legal(cbs, rels, sigma, tr, pl, started=st)
                 dist["polling_spec_checked_runs"] = dist.get("polling_spec_checked_runs", 0) + 1
                 if viol and len(cex) < 50:
                     cex.append({"kind": "executor_oracle_vs_schedule_spec", "op": f"{which} {ss} {wl} 1 0 500", "violated_clauses": viol})
@@ -297,7 +307,7 @@ def falsify_C05(ctx):
             samples.append({"analysis": which, "supply": ss, "callbacks": [(c["tag"], c["cost"], gen.arr_str(c["arr"])) for c in cbs],
                             "self_consistent_bounds": rtb})
     return {"cases": dist["rr"] + dist["bw"], "nontrivial": len(nontrivial),
-            "rule": "random executor workloads (timers, polled callbacks with known and unknown priority) on random reservations: the real rr / bw singleton analyses are iterated upwards from the WCETs until the assumed-bound vector reproduces itself; then dense admissible releases and random / late / adversarial budget placements are executed by the executor model and every callback's observed response times are compared with its bound; non-trivial = distinct (workload with fixed point, scenario)",
+            "rule": "random executor workloads (timers, polled callbacks with known and unknown priority) on random reservations: the real rr / bw singleton analyses are iterated upwards from the WCETs until the assumed-bound vector reproduces itself; then dense admissible releases and random / late / adversarial budget placements are executed by the executor model (execution times at the WCET and, every third scenario, anywhere between 1 and the WCET) and every callback's observed response times are compared with its bound; non-trivial = distinct (workload with fixed point, scenario)",
             "counterexamples": cex, "samples": samples, "distribution": dist}
 
 
@@ -317,10 +327,19 @@ def validate_executor_oracle(rng, n):
             a, b = rng.sample(range(m), 2)
             chains[a] = b
         rels = [sorted(rng.sample(range(H), rng.randint(0, min(6, H)))) for _ in range(m)]
+        rl = [(t, i) for i in range(m) for t in rels[i]]
+        if not chains and rng.random() < 0.6:
+            # arbitrary execution times (Spec: RTA/Spec/Ros2ExecX.lean, driver op `execx`)
+            a, b, c0 = rng.randint(0, 9), rng.randint(0, 9), rng.randint(0, 9)
+            done = ros_sim.simulate_executor(cbs, rels, sigma, ex=ros_sim.ex_formula(cbs, a, b, c0))
+            comps = sorted([(c, i, r) for i in range(m) for (r, c) in done[i]])
+            expected.append("[" + ",".join(f"{i}:{r}:{c}" for c, i, r in comps) + "]")
+            ops.append(f"execx {a} {b} {c0} {m} " + " ".join(f"{1 if c['kind']=='T' else 0} {c['prio']} {c['cost']}" for c in cbs) +
+                       " " + "".join("1" if b2 else "0" for b2 in sigma) + f" {len(rl)} " + " ".join(f"{t} {i}" for t, i in rl))
+            continue
         done = ros_sim.simulate_executor(cbs, rels, sigma, chains)
         comps = sorted([(c, i, r) for i in range(m) for (r, c) in done[i]])
         expected.append("[" + ",".join(f"{i}:{r}:{c}" for c, i, r in comps) + "]")
-        rl = [(t, i) for i in range(m) for t in rels[i]]
         ops.append(f"exec {m} " + " ".join(f"{1 if c['kind']=='T' else 0} {c['prio']} {c['cost']}" for c in cbs) +
                    f" {len(chains)} " + " ".join(f"{a} {b}" for a, b in chains.items()) + (" " if chains else "") +
                    "".join("1" if b else "0" for b in sigma) + f" {len(rl)} " + " ".join(f"{t} {i}" for t, i in rl))
